@@ -200,7 +200,11 @@ class TreeArguments(AbstractArguments):
             else:
                 if el.type == 'argument':
                     c = el.children
-                    if len(c) == 3:  # Keyword argument.
+                    if len(c) == 3 and c[0].type != 'name':
+                        # `f(a.x=1)` is not valid Python (probably a typo of
+                        # `==`), there is no keyword: just pass the value.
+                        yield None, LazyTreeValue(self.context, c[2])
+                    elif len(c) == 3:  # Keyword argument.
                         named_args.append((c[0].value, LazyTreeValue(self.context, c[2]),))
                     else:  # Generator comprehension.
                         # Include the brackets with the parent.
